@@ -39,11 +39,17 @@ pub struct AnalyzeIter<'a> {
 impl<'a> AnalyzeIter<'a> {
     pub(crate) fn new(pattern: &'a [char], matcher: ReMatcher<'a>) -> Self {
         AnalyzeIter {
-            matcher,
             next_substring: None,
             prev_end: Some(0),
-            nesting_table: Self::compute_nesting_table(pattern),
+            // a literal pattern (flag q) has no groups, and its parentheses
+            // need not be balanced
+            nesting_table: if matcher.program.flags.is_literal() {
+                HashMap::new()
+            } else {
+                Self::compute_nesting_table(pattern)
+            },
             skip: false,
+            matcher,
         }
     }
 
